@@ -176,7 +176,7 @@ Section CI.
     r_tbl s' = set_status Nat.eqb (r_tbl s) (mkRec i st a RPending u gen) ->
     a <> APending ->
     r_tr s' = IEv e :: lt ++ r_tr s ->
-    Forall (snap_of (r_cl s')) lt ->
+    Forall (snap2 (r_cl s) (r_cl s')) lt ->
     frame (r_cl s) (r_cl s') i ->
     ( st = SApply /\ In i aids /\ (exists g, e = EApply g i (ast_of a)) /\ r_aband s' = r_aband s /\
       (a = ASucceeded -> okuid c0 i u /\ exists c, fo (r_cl s') i = Some c /\ c_owner c = OOurs)
@@ -205,7 +205,10 @@ Section CI.
     assert (SPLIT : forall it, In it (r_tr s') -> idof it <> None -> it = IEv e \/ In it (r_tr s)).
     { intros it Hit N1. rewrite ETR in Hit. destruct Hit as [<-|Hit]; [left; reflexivity|].
       apply in_app_or in Hit. destruct Hit as [Hit|Hit]; [|right; exact Hit].
-      exfalso. apply N1. eapply snap_idof; eassumption. }
+      exfalso. apply N1.
+      pose proof (Forall_snap2_shape (fun it => idof it = None) _ _ _
+                    (fun c it0 X => snap_idof c [it0] (Forall_cons _ X (Forall_nil _)) it0 (or_introl eq_refl)) FS) as FI.
+      rewrite Forall_forall in FI. exact (FI it Hit). }
     assert (OLDJ : forall it j, In it (r_tr s) -> idof it = Some j -> j <> i).
     { intros it j Hit E ->. exact (NOEV it Hit E). }
     constructor.
@@ -258,7 +261,8 @@ Section CI.
     - apply (RL_set_status s s' (mkRec i st a RPending u gen) (IEv e :: lt)); try assumption; try reflexivity.
       + intros j. constructor.
         * destruct ALT as [[_ [_ [[g ->] _]]]|[_ [_ [_ [[g ->] _]]]]]; reflexivity.
-        * eapply snap_wsel. exact FS.
+        * eapply Forall_snap2_shape; [|exact FS]. intros c it0 X.
+          pose proof (snap_wsel c [it0] j (Forall_cons _ X (Forall_nil _))) as Y. inversion Y; assumption.
       + cbn [r_id]. apply lw_none. intros g x Hin. exact (NOEV _ Hin eq_refl).
     - intros j Hj.
       assert (OLDAB : In j (r_aband s) ->
@@ -350,6 +354,7 @@ Section CI.
     { intros ->. destruct (c_keep c) eqn:K; [reflexivity|]. exfalso.
       pose proof (prune_one_aband_nokeep locals g uids s c K NAL) as E. fold s' in E. rewrite E in SA.
       symmetry in SA. exact (cons_neq_self _ _ SA). }
+    pose proof (Forall_snap2_r (r_cl s) _ _ SF) as SF2.
     apply (CInv_result td' s s' (c_id c) SDelete a u 0%Z (EPrune g (c_id c) (ast_of a)) lt H ST); try assumption.
     - destruct SO as [[[->| ->] _]|[[-> _]|[[-> _]|[[-> _]|[[-> _]|[-> _]]]]]]; discriminate.
     - right. split; [reflexivity|]. split; [exact Hp|]. split; [exact PO|]. split; [exists g; reflexivity|]. split; [|split].
